@@ -1,5 +1,304 @@
 package main
 
-import "fmt"
+import (
+	"fmt"
+	"path"
+	"strings"
 
-func pathsStage(dir string, seed uint64, tier string) error { return fmt.Errorf("paths stage not built yet") }
+	apkfs "chainguard.dev/apko/pkg/apk/fs"
+	"chainguard.dev/apko/pkg/build"
+	"chainguard.dev/apko/pkg/build/types"
+	"chainguard.dev/apko/pkg/options"
+	"verifharness/gal"
+)
+
+type mut struct {
+	Type      string `json:"type"`
+	Path      string `json:"path"`
+	Source    string `json:"source,omitempty"`
+	Perm      uint32 `json:"permissions"`
+	UID       uint32 `json:"uid,omitempty"`
+	GID       uint32 `json:"gid,omitempty"`
+	Recursive bool   `json:"recursive,omitempty"`
+}
+
+type pathDesc struct {
+	Backend int       `json:"backend"`
+	Setup   []setupOp `json:"setup"`
+	Muts    []mut     `json:"paths"`
+	OK      int       `json:"successful_prefixes"`
+	Err     string    `json:"observed_error,omitempty"`
+	Note    string    `json:"note,omitempty"`
+}
+
+func runMutatePaths(fsys apkfs.FullFS, ms []mut) (err error) {
+	defer func() {
+		if r := recover(); r != nil {
+			fmt.Printf("IMPL-VIOLATION tag=mutate-paths-panic {\"panic\":%q}\n", fmt.Sprint(r))
+			err = fmt.Errorf("panic: %v", r)
+		}
+	}()
+	ic := &types.ImageConfiguration{}
+	for _, m := range ms {
+		ic.Paths = append(ic.Paths, types.PathMutation{Path: m.Path, Type: m.Type, UID: m.UID, GID: m.GID, Permissions: m.Perm, Source: m.Source, Recursive: m.Recursive})
+	}
+	return build.VerifMutatePaths(fsys, &options.Options{}, ic)
+}
+
+// directOf: the entry stored under p itself, found through ReadDir of its
+// parent (a final symlink is not resolved).
+func directOf(fsys apkfs.FullFS, p string) (dentry, bool) {
+	base := path.Base(p)
+	if strings.Trim(p, "/") == "" {
+		fi, err := fsys.Stat(p)
+		if err != nil {
+			return dentry{}, false
+		}
+		d := entryOf(fsys, p, fi)
+		d.Path = ""
+		return d, true
+	}
+	des, err := fsys.ReadDir(path.Dir(p))
+	if err != nil {
+		return dentry{}, false
+	}
+	for _, de := range des {
+		if de.Name() == base {
+			fi, err := de.Info()
+			if err != nil {
+				return dentry{}, false
+			}
+			d := entryOf(fsys, p, fi)
+			d.Path = ""
+			return d, true
+		}
+	}
+	return dentry{}, false
+}
+
+func descOf(fsys apkfs.FullFS, root string) []dentry {
+	var out []dentry
+	var rec func(dir, rel string, depth int)
+	rec = func(dir, rel string, depth int) {
+		if depth > 40 {
+			return
+		}
+		des, err := fsys.ReadDir(dir)
+		if err != nil {
+			return
+		}
+		for _, de := range des {
+			fi, err := de.Info()
+			if err != nil {
+				continue
+			}
+			r := de.Name()
+			if rel != "" {
+				r = rel + "/" + de.Name()
+			}
+			full := strings.TrimSuffix(dir, "/") + "/" + de.Name()
+			d := entryOf(fsys, full, fi)
+			d.Path = r
+			out = append(out, d)
+			if de.IsDir() {
+				rec(full, r, depth+1)
+			}
+		}
+	}
+	rec(root, "", 0)
+	return out
+}
+
+func galStep(fsys apkfs.FullFS, m mut) string {
+	d, okd := directOf(fsys, m.Path)
+	st := statOf(fsys, m.Path)
+	var size uint64
+	if fi, err := fsys.Stat(m.Path); err == nil {
+		size = uint64(fi.Size())
+	}
+	src := statOf(fsys, m.Source)
+	var desc []dentry
+	if st.OK {
+		desc = descOf(fsys, m.Path)
+	}
+	return fmt.Sprintf("(mkStep %s %s %s %s %s)", gal.Opt(okd, galDentry(d)), galSinfo(st), gal.N(size), galSinfo(src), galDump(desc))
+}
+
+func pathCase(w *gal.Writer, backend int, setup []setupOp, ms []mut, note string) {
+	_, kept := buildFS(backend, setup)
+	ok := 0
+	var steps []string
+	var lastErr error
+	var final apkfs.FullFS
+	for i := 1; i <= len(ms); i++ {
+		fsys, _ := buildFS(backend, kept)
+		err := runMutatePaths(fsys, ms[:i])
+		if err != nil {
+			lastErr = err
+			break
+		}
+		ok++
+		steps = append(steps, galStep(fsys, ms[i-1]))
+		final = fsys
+	}
+	var dump, layer []dentry
+	if ok == len(ms) {
+		if final == nil {
+			final, _ = buildFS(backend, kept)
+		}
+		dump = dumpFS(final)
+		var lerr error
+		layer, lerr = layerOf(final)
+		if lerr != nil {
+			fmt.Printf("IMPL-VIOLATION tag=layer-serialisation-failed {\"error\":%q,\"note\":%q}\n", lerr.Error(), note)
+		}
+	}
+	gm := make([]string, len(ms))
+	special := false
+	types_ := map[string]bool{}
+	for i, m := range ms {
+		gm[i] = fmt.Sprintf("(mkMut %s %s %s %s %s %s %s)", gal.Str(m.Type), gal.Str(m.Path), gal.Str(m.Source), gal.N(uint64(m.Perm)), gal.N(uint64(m.UID)), gal.N(uint64(m.GID)), gal.Bool(m.Recursive))
+		if m.Perm > 0o777 {
+			special = true
+		}
+		types_[m.Type] = true
+	}
+	term := fmt.Sprintf("{| p_backend := %s; p_setup := %s; p_muts := %s; po_ok := %s; po_steps := %s; po_dump := %s; po_layer := %s |}",
+		gal.Nat(backend), galSetup(kept), gal.List(gm), gal.Nat(ok), gal.List(steps), galDump(dump), galDump(layer))
+	es := ""
+	if lastErr != nil {
+		es = lastErr.Error()
+	}
+	class := fmt.Sprintf("backend=%d/muts=%d/types=%d/special-bits=%v/all-ok=%v", backend, min(len(ms), 4), len(types_), special, ok == len(ms))
+	w.Add(gal.Case{Term: term, Class: class, Trivial: len(ms) == 0, Desc: pathDesc{backend, kept, ms, ok, es, note}})
+}
+
+var treeOps = []setupOp{
+	{Op: "mkdirall", Path: "etc", Perm: 0o755},
+	{Op: "mkdirall", Path: "usr/lib/app", Perm: 0o755},
+	{Op: "write", Path: "usr/lib/app/a.so", Arg: "AAAA", Perm: 0o644},
+	{Op: "write", Path: "usr/lib/app/b.conf", Arg: "b", Perm: 0o600},
+	{Op: "mkdirall", Path: "usr/lib/app/sub/deep", Perm: 0o750},
+	{Op: "write", Path: "usr/lib/app/sub/deep/f", Arg: "f", Perm: 0o644},
+	{Op: "chown", Path: "usr/lib/app/sub", UID: 10, GID: 20},
+	{Op: "symlink", Path: "usr/lib64", Arg: "lib"},
+	{Op: "symlink", Path: "lib", Arg: "usr/lib"},
+	{Op: "symlink", Path: "usr/lib/app/cur", Arg: "sub/deep"},
+	{Op: "symlink", Path: "usr/lib/app/up", Arg: "../../.."},
+	{Op: "symlink", Path: "usr/lib/app/dangling", Arg: "/no/such/file"},
+	{Op: "symlink", Path: "abs", Arg: "/usr/lib/app"},
+	{Op: "symlink", Path: "loop", Arg: "loop"},
+	{Op: "mkdirall", Path: "var/empty", Perm: 0o555},
+	{Op: "write", Path: "etc/motd", Arg: "hi\n", Perm: 0o644},
+	{Op: "link", Path: "etc/motd.hard", Arg: "etc/motd"},
+	{Op: "mkdirall", Path: "tmp", Perm: 0o777},
+}
+
+func pathCorpus(w *gal.Writer) {
+	for backend := 0; backend < 2; backend++ {
+		p := func(note string, setup []setupOp, ms ...mut) { pathCase(w, backend, setup, ms, note) }
+		// C13-F1: special bits
+		p("sticky /tmp (C13-F1)", nil, mut{Type: "directory", Path: "/tmp", Perm: 0o1777})
+		p("setuid empty file (C13-F1)", nil, mut{Type: "empty-file", Path: "/usr/bin/su", Perm: 0o4755})
+		p("setgid via permissions (C13-F1)", treeOps, mut{Type: "permissions", Path: "/usr/lib/app", Perm: 0o2755, UID: 1, GID: 2})
+		// C13-F2: symlink ownership goes to the target
+		p("symlink with owner (C13-F2)", treeOps, mut{Type: "symlink", Path: "/opt/app", Source: "/usr/lib/app", Perm: 0o777, UID: 7, GID: 8})
+		p("symlink mutation overrides the target's own mutation", nil,
+			mut{Type: "directory", Path: "/plain", Perm: 0o750, UID: 1, GID: 2}, mut{Type: "symlink", Path: "/lnk", Source: "plain", Perm: 0o700, UID: 9, GID: 9})
+		p("symlink with root owner", treeOps, mut{Type: "symlink", Path: "/opt/app", Source: "../usr/lib/app", Perm: 0o755})
+		p("dangling symlink mutation", nil, mut{Type: "symlink", Path: "/dl", Source: "nowhere", Perm: 0o777})
+		p("symlink over existing path", treeOps, mut{Type: "symlink", Path: "/etc/motd", Source: "x", Perm: 0o777})
+		// the five types, plain
+		p("directory", nil, mut{Type: "directory", Path: "/a/b/c", Perm: 0o750, UID: 5, GID: 6})
+		p("directory relative path", nil, mut{Type: "directory", Path: "a/b", Perm: 0o700, UID: 5, GID: 6})
+		p("directory exists", treeOps, mut{Type: "directory", Path: "/usr/lib/app", Perm: 0o711, UID: 5, GID: 6})
+		p("directory recursive", treeOps, mut{Type: "directory", Path: "/usr/lib/app/sub", Perm: 0o700, UID: 5, GID: 6, Recursive: true})
+		p("directory recursive over dangling child", treeOps, mut{Type: "directory", Path: "/usr/lib/app", Perm: 0o700, UID: 5, GID: 6, Recursive: true})
+		p("directory recursive through symlinked parent", treeOps, mut{Type: "directory", Path: "/lib/app/sub", Perm: 0o770, UID: 5, GID: 6, Recursive: true})
+		p("directory recursive on a symlink to a directory", treeOps, mut{Type: "directory", Path: "/usr/lib/app/cur", Perm: 0o770, UID: 5, GID: 6, Recursive: true})
+		p("directory on a file", treeOps, mut{Type: "directory", Path: "/etc/motd", Perm: 0o755})
+		p("directory under a file", treeOps, mut{Type: "directory", Path: "/etc/motd/x", Perm: 0o755})
+		p("directory on root", treeOps, mut{Type: "directory", Path: "/", Perm: 0o700, UID: 3, GID: 3})
+		p("directory through a loop", treeOps, mut{Type: "directory", Path: "/loop/x", Perm: 0o755})
+		p("empty-file", nil, mut{Type: "empty-file", Path: "/etc/new/file", Perm: 0o640, UID: 5, GID: 6})
+		p("empty-file truncates", treeOps, mut{Type: "empty-file", Path: "/etc/motd", Perm: 0o600, UID: 5, GID: 6})
+		p("empty-file through symlink", treeOps, mut{Type: "empty-file", Path: "/usr/lib/app/dangling2", Perm: 0o600}, mut{Type: "empty-file", Path: "/abs/a.so", Perm: 0o444, UID: 2, GID: 2})
+		p("empty-file at a symlink to a file", append(append([]setupOp{}, treeOps...), setupOp{Op: "symlink", Path: "etc/m", Arg: "motd"}), mut{Type: "empty-file", Path: "/etc/m", Perm: 0o600, UID: 5})
+		p("empty-file at a dangling symlink whose parent exists", append(append([]setupOp{}, treeOps...), setupOp{Op: "symlink", Path: "etc/d", Arg: "../tmp/made"}), mut{Type: "empty-file", Path: "/etc/d", Perm: 0o600, UID: 5})
+		p("empty-file on a directory", treeOps, mut{Type: "empty-file", Path: "/etc", Perm: 0o600})
+		p("hardlink", treeOps, mut{Type: "hardlink", Path: "/bin/motd", Source: "/etc/motd", Perm: 0o600, UID: 7, GID: 7})
+		p("hardlink overwrites", treeOps, mut{Type: "hardlink", Path: "/usr/lib/app/b.conf", Source: "/etc/motd", Perm: 0o600, UID: 7, GID: 7})
+		p("hardlink over a dangling symlink", treeOps, mut{Type: "hardlink", Path: "/usr/lib/app/dangling", Source: "/etc/motd", Perm: 0o600})
+		p("hardlink over a symlink", treeOps, mut{Type: "hardlink", Path: "/usr/lib/app/cur", Source: "/etc/motd", Perm: 0o600})
+		p("hardlink missing source", treeOps, mut{Type: "hardlink", Path: "/bin/x", Source: "/etc/none", Perm: 0o600})
+		p("hardlink source through symlink", treeOps, mut{Type: "hardlink", Path: "/bin/x", Source: "/lib/app/a.so", Perm: 0o755, UID: 1})
+		p("permissions", treeOps, mut{Type: "permissions", Path: "/etc/motd", Perm: 0o400, UID: 9, GID: 10})
+		p("permissions through symlink", treeOps, mut{Type: "permissions", Path: "/abs/sub", Perm: 0o500, UID: 9, GID: 10})
+		p("permissions missing", treeOps, mut{Type: "permissions", Path: "/nope", Perm: 0o400})
+		p("permissions ignores recursive flag", treeOps, mut{Type: "permissions", Path: "/usr/lib/app", Perm: 0o700, UID: 9, Recursive: true})
+		p("unknown type", treeOps, mut{Type: "chmod", Path: "/etc", Perm: 0o700})
+		p("overlapping sequence", treeOps,
+			mut{Type: "directory", Path: "/srv", Perm: 0o755, UID: 1, GID: 1},
+			mut{Type: "empty-file", Path: "/srv/data/f", Perm: 0o644, UID: 2, GID: 2},
+			mut{Type: "directory", Path: "/srv", Perm: 0o700, UID: 3, GID: 3, Recursive: true},
+			mut{Type: "permissions", Path: "/srv/data", Perm: 0o711, UID: 4, GID: 4},
+			mut{Type: "hardlink", Path: "/srv/g", Source: "/srv/data/f", Perm: 0o600, UID: 5, GID: 5})
+		p("max ids", nil, mut{Type: "directory", Path: "/big", Perm: 0o755, UID: 4294967295, GID: 4294967295})
+		p("empty sequence", treeOps)
+	}
+}
+
+var mutPaths = []string{"/etc/motd", "/etc/new", "/usr/lib/app", "/usr/lib/app/sub", "/usr/lib/app/sub/deep/f", "/lib/app/x", "/usr/lib64/app/sub", "/abs/n", "/usr/lib/app/cur",
+	"/usr/lib/app/cur/g", "/usr/lib/app/dangling", "/opt/a/b", "opt/rel", "/tmp", "/tmp/t", "/var/empty/e", "/loop", "/srv", "/srv/x/y", "/usr/lib/app/up/etc/z", "/etc/motd.hard", "/usr/lib/app/a.so"}
+var mutSources = []string{"/etc/motd", "etc/motd", "/usr/lib/app/a.so", "/lib/app/b.conf", "/usr/lib/app", "../usr/lib", "sub/deep", "/no/such", "none", "/etc/motd.hard", "/usr/lib/app/cur/f", "..", "."}
+var permPool = []uint32{0o755, 0o700, 0o644, 0o600, 0o777, 0o555, 0o750, 0o400, 0, 0o1777, 0o4755, 0o2755, 0o7777}
+
+func pathRandom(w *gal.Writer, r *gal.Rand, n int) {
+	for i := 0; i < n; i++ {
+		var setup []setupOp
+		for _, o := range treeOps {
+			if !r.Chance(1, 6) {
+				setup = append(setup, o)
+			}
+		}
+		var ms []mut
+		for j, k := 0, 1+r.Intn(5); j < k; j++ {
+			m := mut{Type: gal.Pick(r, []string{"directory", "directory", "empty-file", "hardlink", "symlink", "permissions", "permissions"}),
+				Path: gal.Pick(r, mutPaths), Perm: gal.Pick(r, permPool), Recursive: r.Chance(1, 3)}
+			if r.Chance(1, 12) {
+				m.Perm = uint32(r.Intn(4096))
+			}
+			if r.Chance(2, 3) {
+				m.UID, m.GID = uint32(r.Intn(5)), uint32(r.Intn(5))
+			}
+			if r.Chance(1, 15) {
+				m.UID = 4294967295
+			}
+			if m.Type == "hardlink" || m.Type == "symlink" {
+				m.Source = gal.Pick(r, mutSources)
+			}
+			if m.Type == "hardlink" && (m.Source == "/usr/lib/app" || m.Source == "../usr/lib" || m.Source == ".." || m.Source == "." || m.Source == "sub/deep") {
+				m.Source = "/etc/motd" // never hard-link a directory: a cycle would make fs.WalkDir recurse forever
+			}
+			if r.Chance(1, 40) {
+				m.Type = "chown"
+			}
+			if len(ms) > 0 && r.Chance(1, 4) {
+				m.Path = ms[r.Intn(len(ms))].Path
+			}
+			ms = append(ms, m)
+		}
+		pathCase(w, r.Intn(2), setup, ms, "random")
+	}
+}
+
+func pathsStage(dir string, seed uint64, tier string) error {
+	w := &gal.Writer{Dir: dir, Require: "From Apko Require Import Corr.C13.", Type: "path_case", Check: "check_path", Shard: 100}
+	pathCorpus(w)
+	n := 400
+	if tier == "thorough" {
+		n = 4000
+	}
+	pathRandom(w, gal.NewRand(seed+13), n)
+	return w.Flush()
+}
